@@ -506,3 +506,96 @@ fn probe_log_brace() {
     std::mem::forget(logger);
 }
 }
+
+// ------------------------------------------------------------------------------------------------
+// C02, text-filter clause (feature `textfilter`). regex::Regex is replaced by the opaque-identity
+// model of the support crate (`rx`): `is_match` is an uninterpreted predicate whose answer for the
+// logged message is a symbolic boolean and whose answer for any *other* text is the opposite, so
+// that both "filter not consulted" and "filter asked about the wrong text" change the outcome.
+// `std::fmt::format` is NOT stubbed here: rendering the message (`record.args().to_string()`) is
+// part of what is decided; the message is produced by a Display implementation, so that
+// `Arguments::as_str()` is None as for every formatted message.
+#[cfg(feature = "textfilter")]
+macro_rules! flx_harness_fmt {
+    ($u:literal, fn $name:ident() $body:block) => {
+        #[kani::proof]
+        #[kani::unwind($u)]
+        #[kani::stub(verif_support::reexp::catch_unwind, verif_support::stub_cu)]
+        #[kani::stub(chrono::Local::now, stub_now)]
+        #[kani::stub(crate::util::eprint_msg, stub_eprint_msg)]
+        #[kani::stub(crate::util::eprint_err, stub_eprint_err)]
+        #[kani::stub(std::hash::RandomState::new, verif_support::stub_random_state)]
+        #[kani::stub(<crate::primary_writer::test_writer::TestWriter as crate::writers::LogWriter>::write, crate::primary_writer::verif_harness::cut_test_write)]
+        #[kani::stub(<crate::primary_writer::std_writer::StdWriter as crate::writers::LogWriter>::write, crate::primary_writer::verif_harness::cut_std_write)]
+        #[kani::stub(<crate::writers::FileLogWriter as crate::writers::LogWriter>::write, cut_flw_write)]
+        #[kani::stub(crate::util::write_buffered, cut_write_buffered)]
+        #[kani::stub(<crate::writers::FileLogWriter as std::ops::Drop>::drop, cut_flw_drop)]
+        #[kani::stub(<crate::primary_writer::multi_writer::MultiWriter as crate::writers::LogWriter>::write, crate::primary_writer::verif_harness::rec_multi_write)]
+        #[kani::stub(<crate::primary_writer::PrimaryWriter as crate::filter::LogLineWriter>::write, crate::primary_writer::verif_harness::cut_pw_llw_write)]
+        fn $name() $body
+    };
+}
+#[cfg(feature = "textfilter")]
+struct Msg;
+#[cfg(feature = "textfilter")]
+impl std::fmt::Display for Msg {
+    fn fmt(&self, f: &mut std::fmt::Formatter<'_>) -> std::fmt::Result {
+        f.write_str("xyz")
+    }
+}
+#[cfg(feature = "textfilter")]
+fn textfilter_case(tf: u8, target: &str, with_filter: bool) {
+    use crate::log_specification::verif_harness::mk_spec_tf;
+    vs::link_all();
+    vs::cell_set(9, 5);
+    vs::cell_set(10, 5);
+    let la = any_filter();
+    let has_default: bool = kani::any();
+    let ld = any_filter();
+    let mut v = Vec::with_capacity(2);
+    v.push(ModuleFilter { module_name: Some("a".to_string()), level_filter: la });
+    if has_default {
+        v.push(ModuleFilter { module_name: None, level_filter: ld });
+    }
+    let ld = if has_default { Some(ld) } else { None };
+    let logger = mk_logger(mk_spec_tf(v, tf), 0, with_filter);
+    let answer: bool = kani::any();
+    vs::rx::set_answer(1, answer);
+    vs::rx::set_answer(2, !answer); // a different pattern decides differently
+    vs::rx::set_message(3, b'x');
+    let level = any_level();
+    let by_spec = ref_enabled(level, target, la, ld);
+    let expect = by_spec && (tf == 0 || answer);
+    logger.log(&log::Record::builder().level(level).target(target).module_path(Some("zz")).args(format_args!("{}", Msg)).build());
+    let delivered = vs::cell_get(C_P) + vs::cell_get(C_FILTER);
+    assert!(delivered == if expect { 1 } else { 0 });
+    assert!(vs::cell_get(C_FILTER) == if expect && with_filter { 1 } else { 0 });
+    kani::cover!(by_spec && (tf == 0 || !answer), "enabled by the specification; if a text filter is set it suppresses the record");
+    kani::cover!(by_spec && (tf == 0 || answer), "enabled by the specification; if a text filter is set it matches");
+    kani::cover!(!by_spec, "disabled by the specification");
+    std::mem::forget(logger);
+}
+// @verif prop=C02 tier=quick feat=textfilter timeout=900 bounds=spec{a=L,[default=L]}+text-filter(id1),target"ab",formatted-message,is_match-uninterpreted(symbolic-answer)
+// With a text filter set, log() passes the record on iff the specification enables (level, target) AND the filter matches the rendered message (uninterpreted is_match with a symbolic answer for the message and the opposite answer for any other text).
+#[cfg(feature = "textfilter")]
+flx_harness_fmt! { 12,
+fn c02_log_textfilter_set() {
+    textfilter_case(1, "ab", false);
+}
+}
+// @verif prop=C02 tier=quick feat=textfilter timeout=900 bounds=spec{a=L,[default=L]},no-text-filter,target"b",feature-on
+// Without a text filter (feature compiled in) the specification alone decides; is_match answers are irrelevant.
+#[cfg(feature = "textfilter")]
+flx_harness_fmt! { 12,
+fn c02_log_textfilter_none() {
+    textfilter_case(0, "b", false);
+}
+}
+// @verif prop=C02 tier=quick feat=textfilter timeout=900 bounds=spec+text-filter(id1),target"ab",user-line-filter
+// Text filter and user line filter together: the line filter is reached iff spec and text filter both accept.
+#[cfg(feature = "textfilter")]
+flx_harness_fmt! { 12,
+fn c02_log_textfilter_linefilter() {
+    textfilter_case(1, "ab", true);
+}
+}
